@@ -2,7 +2,7 @@
    Statements only; every proof is `exact <lemma of CoroVMProofs>` (the refutation is a computation).
    Quantification: any main script and any family of coroutine scripts (p : nat -> list instr, i.e. any number of
    coroutines and steps), any number n of machine steps (every run prefix, no termination assumption). *)
-From Cocls Require Import Base CoroVMDefs CoroVMProofs CoroVMNoPreempt.
+From Cocls Require Import Base CoroVMDefs CoroVMProofs CoroVMNoPreempt CoroVMOnce CoroVMLife CoroVMDeq CoroVMRuns.
 Local Open Scope nat_scope.
 
 (* drain: whenever control is back in normal code the ready queue is empty, coroutine mode is off and the C++ stack
@@ -103,6 +103,47 @@ Proof.
   destruct K as [K|[K|[K|[K|[K|[K|K]]]]]]; subst k; cbn in Hd; destruct Hd as [Hd|(x&Hd)]; discriminate.
 Qed.
 Print Assumptions c05_no_preempt_literal_refuted.
+
+(* each_once: in every reachable state the scheduler-side handles (running coroutine, callers blocked inside start(), handles
+   waiting inside install_queue_and_call, ready queue) are pairwise distinct and every awaiter chain is duplicate free; a
+   coroutine in a chain is in none of the scheduler-side places, in no other chain and is not a co_awaiting parent; a
+   co_awaiting parent is in none of those places and waits for one child; exactly the Started coroutines have a handle
+   somewhere (nothing is lost, nothing not-yet-started or finished can be resumed) *)
+Theorem c05_each_once : forall p m n,
+  let s := steps n (init p m) in
+  NoDup (held s) /\
+  (forall f, NoDup (chain_of (fs s f))) /\
+  (forall f c, In c (chain_of (fs s f)) ->
+      ~ In c (held s) /\ (forall g, In c (chain_of (fs s g)) -> g = f) /\
+      (forall x, stat (cs s x) = Started -> bound (cs s x) <> BParent c)) /\
+  (forall x p', stat (cs s x) = Started -> bound (cs s x) = BParent p' ->
+      ~ In p' (held s) /\ forall y, stat (cs s y) = Started -> bound (cs s y) = BParent p' -> y = x) /\
+  (forall c, In c (held s) \/ (exists f, In c (chain_of (fs s f))) \/ (exists x, stat (cs s x) = Started /\ bound (cs s x) = BParent c) ->
+      stat (cs s c) = Started) /\
+  (forall c, stat (cs s c) = Started ->
+      In c (held s) \/ (exists f, In c (chain_of (fs s f))) \/ (exists x, stat (cs s x) = Started /\ bound (cs s x) = BParent c)).
+Proof. exact each_once. Qed.
+Print Assumptions c05_each_once.
+
+(* never resumed while already running, never after the body finished: whenever `ERun c` was logged, the earlier events say c
+   is not running (never ran, or its last Run was followed by a Susp) and contain no `EFin c` *)
+Theorem c05_never_resumed_while_running : forall p m n later c earlier,
+  log (steps n (init p m)) = later ++ ERun c :: earlier ->
+  rlc c earlier = 0 /\ nev (is_fin c) earlier = 0.
+Proof. exact never_resumed_while_running. Qed.
+Print Assumptions c05_never_resumed_while_running.
+
+(* ... and a coroutine only suspends / finishes while it is the one running; the log and the control state agree on who runs *)
+Theorem c05_log_matches_control : forall p m n,
+  let s := steps n (init p m) in wf_runs (log s) /\ forall c, rlc c (log s) = act s c.
+Proof. exact runs_reach. Qed.
+Print Assumptions c05_log_matches_control.
+
+(* deq_run: in the newest-first log the event right after an `EDeq x` is `ERun x`; the log never ends in a dangling EDeq *)
+Theorem c05_deq_run : forall p m n,
+  let s := steps n (init p m) in hd_not_deq (log s) /\ deq_ok (log s).
+Proof. exact deq_run_reach. Qed.
+Print Assumptions c05_deq_run.
 
 (* non-vacuity: a reachable state in which a coroutine pauses with two others queued meets the hypotheses of
    c05_pause_round_robin, and the run it belongs to drains *)
